@@ -80,8 +80,9 @@ Definition key_legacy (sc : scope) (name : str) (d : ddef) : rkey :=
      k_params := [param_in (rate_name (dd_type d)) (dd_type d) (dd_params d)];
      k_fields := [join_sp (ssort (dd_fields d))] |}.
 
-Definition key_of (sc : scope) (name : str) (d : ddef) : rkey :=
-  if GenC12.key_format_whole then key_whole sc name d else key_legacy sc name d.
+(* the source as it is; whether the code really separates definitions like this is decided by the
+   correspondence (pointer identity of the instances), not by a fact about the statement text *)
+Definition key_of (sc : scope) (name : str) (d : ddef) : rkey := key_whole sc name d.
 
 (* ---------- factory state ---------- *)
 Record inst := { i_id : N; i_gen : N; i_goal : Z }.
